@@ -7,6 +7,7 @@ mod memfs;
 mod parse_obs;
 mod pool;
 mod pos_obs;
+mod pp_obs;
 mod srv;
 mod tree_obs;
 mod util;
@@ -24,6 +25,7 @@ fn handle(item: &Value) -> Value {
         "analysis" => ws_obs::analysis_item(item),
         "session" => srv::session_item(item),
         "pos" => pos_obs::pos_item(item),
+        "pp" => pp_obs::pp_item(item),
         other => json!({"id": item.get("id"), "outcome": "ToolError", "msg": format!("unknown kind {other}")}),
     }
 }
